@@ -112,28 +112,82 @@ Section EvoProofs.
     simpl in *. repeat split; congruence.
   Qed.
 
+  (* feedback sequence numbers of a history are 1, 2, 3, … in the order of its rewarded entries *)
+  Fixpoint fsn_ok (k : nat) (h : list hentry) : Prop :=
+    match h with
+    | [] => True
+    | (d, None) :: t => fsn_ok k t
+    | (d, Some _) :: t => dfsn d = Some (Z.of_nat k + 1)%Z /\ fsn_ok (S k) t
+    end.
+
+  Lemma fsn_ok_app : forall a b k, fsn_ok k (a ++ b) <-> fsn_ok k a /\ fsn_ok (k + nrew a) b.
+  Proof.
+    induction a as [|[d [r|]] a IH]; intros b k; simpl.
+    - rewrite Nat.add_0_r. tauto.
+    - rewrite IH. replace (S k + nrew a) with (k + S (nrew a)) by lia. tauto.
+    - apply IH.
+  Qed.
+
+  Lemma fsn_ok_unrewarded : forall h k, unrewarded h -> fsn_ok k h.
+  Proof. induction 1; simpl; auto. destruct x as [d ro]. simpl in H. subst. assumption. Qed.
+
+  Lemma replay_nf : forall acc e, ev_nf _ _ (fst (replay acc e)) = ev_nf _ _ (fst acc) + rewarded (snd e).
+  Proof.
+    intros [s ip] [d ro]. unfold ev_replay. simpl. destruct ro as [r|]; simpl; [|lia].
+    destruct (dfsn d).
+    - unfold ev_readd. destruct (updf _ _ _). simpl. lia.
+    - unfold ev_feedback. destruct (updf _ _ _). simpl. lia.
+  Qed.
+
+  (* re-adding the fed-back DNA = feeding back the DNA as it was before *)
+  Lemma readd_feedback_erel : forall s t d r, erel s t ->
+    erel (ev_readd gi G updf s (set_fed d (Z.of_nat (ev_nf _ _ s) + 1) r)) (snd (ev_feedback gi size G updf t d r)).
+  Proof.
+    unfold erel, ev_feedback, ev_readd. intros s t d r (A & B & C & D).
+    rewrite <- B, <- C.
+    set (d' := set_fed d (Z.of_nat (ev_nf _ _ s) + 1) r).
+    destruct (Hupd (ev_pop _ _ s ++ [d']) (ev_g _ _ s) (ev_g _ _ t) (ev_nf _ _ s) D) as [P Q].
+    destruct (updf (ev_pop _ _ s ++ [d']) (ev_g _ _ s) (ev_nf _ _ s)) as [p1 g1].
+    destruct (updf (ev_pop _ _ s ++ [d']) (ev_g _ _ t) (ev_nf _ _ s)) as [p2 g2].
+    simpl in *. repeat split; congruence.
+  Qed.
+
   (* replaying related entries from related accumulators keeps them related *)
-  Lemma replay_erel : forall acc acc' e e', erel (fst acc) (fst acc') -> hs_weak e e' ->
+  Lemma replay_erel : forall acc acc' e e' k, erel (fst acc) (fst acc') -> hs_weak e e' ->
+    ev_nf _ _ (fst acc) = k -> fsn_ok k [e] ->
     erel (fst (replay acc e)) (fst (replay acc' e')).
   Proof.
-    intros [s ip] [t jp] [d ro] [d' ro'] H [Hs Hf]. simpl in *. subst ro'.
+    intros [s ip] [t jp] [d ro] [d' ro'] k H [Hs Hf] Hk Hw. simpl in *. subst ro'.
     unfold ev_replay. simpl.
     destruct ro as [r|].
-    - rewrite <- (Hf ltac:(congruence)).
-      destruct (dfsn d).
-      + simpl. apply raise_erel, readd_erel, bump_erel, H.
-      + destruct (feedback_erel (ev_bump_np gi G s) (ev_bump_np gi G t) d r (bump_erel _ _ H)) as [P Q].
-        destruct (ev_feedback gi size G updf (ev_bump_np gi G s) d r) as [d1 s1].
-        destruct (ev_feedback gi size G updf (ev_bump_np gi G t) d r) as [d2 s2].
-        simpl in *. apply raise_erel. assumption.
+    - destruct (Hf r eq_refl) as [He | (Hn & q & Hq)].
+      + subst d'.
+        destruct (dfsn d).
+        * simpl. apply raise_erel, readd_erel, bump_erel, H.
+        * destruct (feedback_erel (ev_bump_np gi G s) (ev_bump_np gi G t) d r (bump_erel _ _ H)) as [P Q].
+          destruct (ev_feedback gi size G updf (ev_bump_np gi G s) d r) as [d1 s1].
+          destruct (ev_feedback gi size G updf (ev_bump_np gi G t) d r) as [d2 s2].
+          simpl in *. apply raise_erel. assumption.
+      + (* d is d' with the feedback metadata on it; its sequence number is the one recover would assign *)
+        destruct Hw as [Hw _]. subst d. simpl in Hw. injection Hw as Hq. subst q.
+        rewrite Hn. simpl dfsn. cbv iota.
+        pose proof (readd_feedback_erel (ev_bump_np gi G s) (ev_bump_np gi G t) d' r (bump_erel _ _ H)) as Q.
+        simpl ev_nf in Q. rewrite Hk in Q.
+        destruct (ev_feedback gi size G updf (ev_bump_np gi G t) d' r) as [d2 s2]. simpl in *.
+        apply raise_erel. assumption.
     - simpl. apply raise_erel, bump_erel, H.
   Qed.
 
-  Lemma fold_erel : forall h h', HRw h h' -> forall acc acc', erel (fst acc) (fst acc') ->
+  Lemma fold_erel : forall h h', HRw h h' -> forall k acc acc', erel (fst acc) (fst acc') ->
+    ev_nf _ _ (fst acc) = k -> fsn_ok k h ->
     erel (fst (fold_left replay h acc)) (fst (fold_left replay h' acc')).
   Proof.
-    induction 1; intros; simpl; [assumption|].
-    apply IHForall2. apply replay_erel; assumption.
+    induction 1; intros k acc acc' He Hk Hw; simpl; [assumption|].
+    change (x :: l) with ([x] ++ l) in Hw. apply fsn_ok_app in Hw. destruct Hw as [Hw1 Hw2].
+    apply IHForall2 with (k := k + nrew [x]).
+    - eapply replay_erel; eauto.
+    - rewrite replay_nf. simpl. lia.
+    - assumption.
   Qed.
 
   Fixpoint bump_n (n : nat) (s : est) : est :=
@@ -215,6 +269,27 @@ Section EvoProofs.
       exact (erel_trans _ _ _ L1 (erel_trans _ _ _ L2 (erel_trans _ _ _ L3 (erel_trans _ _ _ L4 L5)))).
   Qed.
 
+  Lemma efold_nf : forall h, ev_nf _ _ (efold h) = nrew h.
+  Proof.
+    intros. unfold efold.
+    assert (forall acc, ev_nf _ _ (fst (fold_left replay h acc)) = ev_nf _ _ (fst acc) + nrew h) as H.
+    { induction h; intros; simpl; [lia|]. rewrite IHh, replay_nf. lia. }
+    rewrite H. simpl. reflexivity.
+  Qed.
+
+  Lemma evo_reach_fsn : forall P s h, Reach E P s h -> fsn_ok 0 h.
+  Proof.
+    induction 1.
+    - exact I.
+    - apply fsn_ok_app. split; [assumption|]. simpl. exact I.
+    - pose proof (evo_reach_spec _ _ _ H) as (_ & Hnf & _ & _).
+      rewrite efold_nf, nrew_app in Hnf. simpl in Hnf. rewrite (nrew_unrewarded _ H0) in Hnf.
+      apply fsn_ok_app in IHReach. destruct IHReach as [I1 I2].
+      apply fsn_ok_app. split; [assumption|]. simpl. split; [|apply fsn_ok_unrewarded; assumption].
+      simpl in H2. unfold ev_feedback in H2. destruct (updf _ _ _). inv H2. simpl.
+      do 2 f_equal. lia.
+  Qed.
+
   Lemma evo_recover_fields : forall h,
     erel (recover E (init E) h) (efold h).
   Proof.
@@ -227,7 +302,8 @@ Section EvoProofs.
     intros s h HR h' Hh.
     pose proof (evo_reach_spec _ _ _ HR) as A.
     pose proof (evo_recover_fields h') as B.
-    assert (erel (efold h) (efold h')) as C by (apply fold_erel; [assumption | apply erel_refl]).
+    assert (erel (efold h) (efold h')) as C.
+    { unfold efold. eapply fold_erel with (k := 0); eauto using erel_refl. eapply evo_reach_fsn; eauto. }
     destruct (erel_trans _ _ _ B (erel_sym _ _ (erel_trans _ _ _ A C))) as (X1 & X2 & X3 & _).
     simpl in *. rewrite X1, X2, X3. reflexivity.
   Qed.
